@@ -27,7 +27,8 @@ def classes_of(text, res):
 def make_example(focus, faults=()):
     def example(draw, tier):
         flavor = draw(st.sampled_from(FLAVORS))
-        prog, nops = gen.lfht_program(draw, tier, focus, flavor)
+        f = draw(st.sampled_from(focus)) if isinstance(focus, (list, tuple)) else focus
+        prog, nops = gen.lfht_program(draw, tier, f, flavor)
         head = ["scen lfht_" + flavor, "cfg membarrier %d" % draw(st.integers(0, 1))]
         out = []
         for _ in range(gen.BATCH):
